@@ -101,8 +101,10 @@ func c15Build(prof [3]int, edges [3]int) (*Project, *c15Ref) {
 	names := []string{"a", "b", "c"}
 	profSets := [][]string{nil, {"p"}, {"q"}, {"p", "q"}}
 	p := &Project{Name: "n", Services: Services{}, DisabledServices: Services{},
-		Networks: Networks{"n1": {Name: "n1"}, "n2": {Name: "n2"}, "unused": {Name: "u"}},
-		Volumes:  Volumes{"v1": {Name: "v1"}, "unusedv": {Name: "uv"}}}
+		Networks: Networks{"n1": {Name: "n1"}, "n2": {Name: "n2"}, "n3": {Name: "n3"}, "unused": {Name: "u"}},
+		Volumes:  Volumes{"v1": {Name: "v1"}, "v2": {Name: "v2"}, "unusedv": {Name: "uv"}},
+		Secrets:  Secrets{"s1": {Name: "s1", File: "/f"}, "s2": {Name: "s2", File: "/f"}, "unuseds": {Name: "us", File: "/f"}},
+		Configs:  Configs{"c1": {Name: "c1", File: "/f"}, "unusedc": {Name: "uc", File: "/f"}}}
 	r := &c15Ref{enabled: map[string]bool{}, disabled: map[string]bool{}, profiles: map[string][]string{}, deps: map[string]map[string]bool{}}
 	for i, n := range names {
 		s := ServiceConfig{Name: n, Image: "i", Profiles: profSets[prof[i]], DependsOn: DependsOnConfig{}}
@@ -111,9 +113,17 @@ func c15Build(prof [3]int, edges [3]int) (*Project, *c15Ref) {
 		switch n {
 		case "a":
 			s.Networks = map[string]*ServiceNetworkConfig{"n1": nil}
+			s.Secrets = []ServiceSecretConfig{{Source: "s1"}}
 		case "b":
-			s.Networks = map[string]*ServiceNetworkConfig{"n2": nil}
-			s.Volumes = []ServiceVolumeConfig{{Type: "volume", Source: "v1", Target: "/t"}}
+			s.Networks = map[string]*ServiceNetworkConfig{"n2": nil, "n3": nil}
+			// mounts of every kind in front of the named volumes
+			s.Volumes = []ServiceVolumeConfig{{Type: "bind", Source: "/h", Target: "/h"}, {Type: "tmpfs", Target: "/tmp"}, {Type: "volume", Target: "/anon"},
+				{Type: "volume", Source: "v1", Target: "/t"}, {Type: "volume", Source: "v2", Target: "/u"}}
+			s.Configs = []ServiceConfigObjConfig{{Source: "c1"}}
+		case "c":
+			s.Networks = map[string]*ServiceNetworkConfig{"n3": nil}
+			s.Volumes = []ServiceVolumeConfig{{Type: "volume", Source: "v2", Target: "/u"}}
+			s.Secrets = []ServiceSecretConfig{{Source: "s2"}, {Source: "s1"}}
 		}
 		p.Services[n] = s
 		r.enabled[n] = true
@@ -249,13 +259,34 @@ func VerifC15Selection() {
 		vrtAssert("deterministic-result", vrtDeepEqual(any(q), any(q2)))
 		c15Check(q, r)
 		if op == 4 {
-			wantN1, wantN2, wantV := r.enabled["a"], r.enabled["b"], r.enabled["b"]
-			_, n1 := q.Networks["n1"]
-			_, n2 := q.Networks["n2"]
-			_, un := q.Networks["unused"]
-			_, v1 := q.Volumes["v1"]
-			_, uv := q.Volumes["unusedv"]
-			vrtAssert("prune-keeps-exactly-referenced", n1 == wantN1 && n2 == wantN2 && !un && v1 == wantV && !uv)
+			ea, eb, ec := r.enabled["a"], r.enabled["b"], r.enabled["c"]
+			has := func(ok bool, want bool, what string) {
+				vrtAssert("prune-keeps-exactly-referenced#"+what, ok == want)
+			}
+			_, ok := q.Networks["n1"]
+			has(ok, ea, "n1")
+			_, ok = q.Networks["n2"]
+			has(ok, eb, "n2")
+			_, ok = q.Networks["n3"]
+			has(ok, eb || ec, "n3")
+			_, ok = q.Networks["unused"]
+			has(ok, false, "unused-network")
+			_, ok = q.Volumes["v1"]
+			has(ok, eb, "v1")
+			_, ok = q.Volumes["v2"]
+			has(ok, eb || ec, "v2")
+			_, ok = q.Volumes["unusedv"]
+			has(ok, false, "unused-volume")
+			_, ok = q.Secrets["s1"]
+			has(ok, ea || ec, "s1")
+			_, ok = q.Secrets["s2"]
+			has(ok, ec, "s2")
+			_, ok = q.Secrets["unuseds"]
+			has(ok, false, "unused-secret")
+			_, ok = q.Configs["c1"]
+			has(ok, eb, "c1")
+			_, ok = q.Configs["unusedc"]
+			has(ok, false, "unused-config")
 		}
 		if op == 1 {
 			// enabling activates the profiles of the service
